@@ -1537,9 +1537,21 @@ int main(int argc, char** argv)
       dispatch();
     }
     vf::done();
+#ifdef VF_SYS
+    fflush(stdout);
+    fflush(stderr);
+    _exit(0);
+#endif
     return 0;
   }
   int rc = dispatch();
   if (!a.get("--replay")) vf::done();
+#ifdef VF_SYS
+  // process-wide singletons were re-created in place for every execution and what they owned went with the executions:
+  // their destructors must not run
+  fflush(stdout);
+  fflush(stderr);
+  _exit(rc);
+#endif
   return rc;
 }
